@@ -35,6 +35,8 @@ type fakeModify struct {
 	// sendBudget >= 0: that many further Sends succeed, then they fail
 	failSend   atomic.Bool
 	sendBudget atomic.Int64
+	// stallFail > 0: the next Send blocks for that long and then fails (a write stuck on a dying transport)
+	stallFail atomic.Int64
 }
 
 func (f *fakeModify) Context() context.Context     { return f.ctx }
@@ -42,6 +44,11 @@ func (f *fakeModify) SetHeader(metadata.MD) error  { return nil }
 func (f *fakeModify) SendHeader(metadata.MD) error { return nil }
 func (f *fakeModify) SetTrailer(metadata.MD)       {}
 func (f *fakeModify) Send(m *spb.ModifyResponse) error {
+	if d := f.stallFail.Load(); d > 0 {
+		f.failSend.Store(true)
+		time.Sleep(time.Duration(d))
+		return status.Error(codes.Unavailable, "transport is closing")
+	}
 	if f.failSend.Load() {
 		return status.Error(codes.Unavailable, "transport is closing")
 	}
@@ -265,6 +272,25 @@ func (s *Sess) wait() error {
 	case <-time.After(Watchdog):
 		return fmt.Errorf("HANG: RPC did not return within %v", Watchdog)
 	}
+}
+
+// AbortWhileAnswering: the connection dies while a response is being written - the read side reports it first (Recv
+// fails while Send is still stuck), the write fails afterwards.  A state-neutral operation gives the server
+// something to answer.
+func (s *Sess) AbortWhileAnswering() error {
+	if !s.Live() {
+		return nil
+	}
+	s.f.stallFail.Store(int64(40 * time.Millisecond))
+	id := s.nextBarrier()
+	bar := &spb.ModifyRequest{Operation: []*spb.AFTOperation{{Id: id, NetworkInstance: BarrierNI, Op: spb.AFTOperation_ADD}}}
+	if ok, err := s.push(bar); err != nil || !ok {
+		return err
+	}
+	time.Sleep(10 * time.Millisecond) // the writer is inside Send by now, the reader back in Recv
+	s.closed = true
+	close(s.f.abrt)
+	return s.wait()
 }
 
 // SendFail simulates a transport failure: the next response cannot be written. A state-neutral
